@@ -230,9 +230,9 @@ mod verif_client {
         cert: HashMap<Tag, Vec<u8>>,
         dele: HashMap<Tag, Vec<u8>>,
         nonce: Vec<u8>,
-        _request: Vec<u8>,
+        request: Vec<u8>,
     ) -> ResponseHandler {
-        ResponseHandler { pub_key: Some(pub_key), msg, srep, cert, dele, nonce, version }
+        ResponseHandler { pub_key: Some(pub_key), msg, srep, cert, dele, nonce, request, version }
     }
 
     fn verify_record(pk: &[u8; 32], ctx: &[u8], payload: &[u8], sig: &[u8; 64]) -> Option<bool> {
@@ -263,8 +263,8 @@ mod verif_client {
         // ---- reaching this point means the client accepted the response (every failed
         // validation ends the process before)
         vcover!(true, "COVER:response-accepted");
-        vassert!(out.midpoint == p.midp && out.radius == p.radi, "VERIF:C03:reported-midpoint-and-radius-are-the-signed-ones");
-        vassert!(out.verified, "VERIF:C03:verified-is-yes-when-a-key-was-given");
+        vassert!(out.midpoint == p.midp && out.radius == p.radi, "VERIF:C01:reported-midpoint-and-radius-are-the-signed-ones");
+        vassert!(out.verified, "VERIF:C01:verified-reported-only-after-all-validations");
         let dctx = match version {
             Version::Google => DELE_CTX_GOOGLE,
             Version::RfcDraft13 => DELE_CTX_IETF,
@@ -294,7 +294,7 @@ mod verif_client {
         roughenough::Error::EncodingFailure(String::new())
     }
 
-    //@ family c01_handler props=C01,C03 mode=panics-ok mod=verif_client target=client must_cover=COVER:response-accepted timeout=900
+    //@ family c01_handler props=C01 mode=panics-ok mod=verif_client target=client must_cover=COVER:response-accepted timeout=900
     //@ harness c01_sigs_classic_d0 tier=quick shape="classic, single-request batch (empty path); both signatures, nonce, midpoint, window symbolic; honest root and window"
     c01_handler!(c01_sigs_classic_d0, 64, 64, 0, Version::Google, 0, 12);
     //@ harness c01_sigs_ietf_d1 tier=quick shape="IETF, batch of 2 (one path element); signatures, nonce, path, index symbolic" required=no
@@ -314,6 +314,14 @@ mod verif_client {
     /// signed midpoint.  LEAF: what the protocol hashes for this request (classic: the nonce;
     /// IETF: the whole request packet, here RL symbolic bytes standing for it).
     fn honest_body<const NL: usize, const RL: usize, const W: usize, const PL: usize>(version: Version) {
+        honest_then::<NL, RL, W, PL>(version, false)
+    }
+
+    /// `then_forged`: after the honest response has been accepted, the same process is shown a
+    /// second response (for a fresh nonce) that re-uses the genuine CERT.SIG bytes but carries the
+    /// attacker's key in DELE and is signed by the attacker: the acceptance conditions must hold
+    /// for the second response on its own (multi-request run, `-n 2`).
+    fn honest_then<const NL: usize, const RL: usize, const W: usize, const PL: usize>(version: Version, then_forged: bool) {
         use dalek::Signer;
         dalek::model_reset();
         ring::digest::model_reset(false);
@@ -389,6 +397,64 @@ mod verif_client {
         vassert!(out.midpoint == midp, "VERIF:C03:reported-midpoint-is-the-signed-midpoint");
         vassert!(out.radius == radi, "VERIF:C03:reported-radius-is-the-signed-radius");
         core::mem::forget(h);
+        if then_forged {
+            let at_seed: [u8; 32] = vany_bytes::<32>();
+            let attacker = dalek::SigningKey::from_bytes(&at_seed);
+            let at_pk = attacker.verifying_key().to_bytes();
+            vassume(at_pk != ol_pk);
+            let nonce2: [u8; NL] = vany_bytes::<NL>();
+            let midp2 = vany_u64();
+            let root2: [u8; W] = match version {
+                Version::Google => spec_root::<W>(&nonce2, indx, &path, PL / W),
+                Version::RfcDraft13 => spec_root::<W>(&request, indx, &path, PL / W),
+            };
+            let mut d2 = RtMessage::with_capacity(3);
+            d2.add_field(Tag::PUBK, &at_pk).unwrap();
+            d2.add_field(Tag::MINT, &0u64.to_le_bytes()).unwrap();
+            d2.add_field(Tag::MAXT, &u64::MAX.to_le_bytes()).unwrap();
+            let dele2 = d2.encode().unwrap();
+            let mut s2 = RtMessage::with_capacity(5);
+            if version == Version::RfcDraft13 {
+                s2.add_field(Tag::VER, version.wire_bytes()).unwrap();
+            }
+            s2.add_field(Tag::RADI, &radi.to_le_bytes()).unwrap();
+            s2.add_field(Tag::MIDP, &midp2.to_le_bytes()).unwrap();
+            if version == Version::RfcDraft13 {
+                s2.add_field(Tag::VERS, &Version::supported_versions_wire()).unwrap();
+            }
+            s2.add_field(Tag::ROOT, &root2).unwrap();
+            let srep2 = s2.encode().unwrap();
+            let mut m3 = [0u8; 160];
+            m3[..32].copy_from_slice(SIGN_CTX);
+            m3[32..32 + srep2.len()].copy_from_slice(&srep2);
+            let sig2 = attacker.sign(&m3[..32 + srep2.len()]).to_bytes();
+            let msg2 = map_of(vec![
+                (Tag::SIG, sig2.to_vec()),
+                (Tag::NONC, nonce2.to_vec()),
+                (Tag::PATH, path.to_vec()),
+                (Tag::SREP, srep2.clone()),
+                (Tag::INDX, indx.to_le_bytes().to_vec()),
+            ]);
+            let srep_map2 = map_of(vec![
+                (Tag::RADI, radi.to_le_bytes().to_vec()),
+                (Tag::MIDP, midp2.to_le_bytes().to_vec()),
+                (Tag::ROOT, root2.to_vec()),
+            ]);
+            let cert2 = map_of(vec![(Tag::SIG, cert_sig.to_vec()), (Tag::DELE, dele2.clone())]);
+            let dele_map2 = map_of(vec![
+                (Tag::PUBK, at_pk.to_vec()),
+                (Tag::MINT, 0u64.to_le_bytes().to_vec()),
+                (Tag::MAXT, u64::MAX.to_le_bytes().to_vec()),
+            ]);
+            let h2 = mk_handler(version, lt_pk.to_vec(), msg2, srep_map2, cert2, dele_map2, nonce2.to_vec(), request.to_vec());
+            let out2 = h2.extract_time();
+            // accepted: then the delegation of *this* response must have verified under the pinned key
+            vcover!(true, "COVER:second-response-accepted");
+            let v = verify_record(&lt_pk, dctx, &dele2, &cert_sig);
+            vassert!(v == Some(true), "VERIF:C01:later-response-of-a-run-accepted-only-if-its-own-certificate-verifies");
+            vassert!(out2.verified, "VERIF:C01:verified-reported-only-after-all-validations");
+            core::mem::forget(h2);
+        }
     }
 
     macro_rules! c03_honest {
@@ -402,6 +468,16 @@ mod verif_client {
             }
         };
     }
+    //@ family c01_sequence props=C01 mode=panics-ok mod=verif_client target=client must_cover=COVER:honest-response-accepted timeout=1500
+    //@ harness c01_genuine_then_spliced_classic tier=thorough shape="classic: a genuine response is accepted, then a response re-using its CERT.SIG with an attacker DELE/SREP is shown" required=no
+    #[cfg_attr(kani, kani::proof)]
+    #[cfg_attr(kani, kani::unwind(12))]
+    #[cfg_attr(kani, kani::stub(<roughenough::Error as std::convert::From<std::io::Error>>::from, crate::verif_client::stub_error_from_io))]
+    #[cfg_attr(not(kani), test)]
+    fn c01_genuine_then_spliced_classic() {
+        honest_then::<64, 8, 64, 0>(Version::Google, true);
+    }
+
     //@ family c03_honest props=C03 mode=strict mod=verif_client target=client must_cover=COVER:honest-response-accepted timeout=900
     //@ harness c03_honest_classic_d0 tier=quick shape="classic, single-request batch; nonce, midpoint, both key seeds symbolic"
     c03_honest!(c03_honest_classic_d0, 64, 8, 64, 0, Version::Google, 12);
